@@ -51,6 +51,10 @@ def run(ck):
     else:
       combos = [(t, v, scheds, SHAPES[(i + a + b) % len(SHAPES)], bool((a + b) % 2))
                 for a, t in enumerate(THRS) for b, v in enumerate(VARIANTS)]
+    # ... and a tree whose statistics are ALL 1x1 (the closed-form scalar branch of the Newton routine), without
+    # ridge: a zero gradient leaves the statistic exactly 0 and its root infinite - the gate must reject it
+    combos.append(([0.1, 1e30][(i // 2) % 2], (False, 0.0, [True, False][i % 2], "SGD"),
+                   scheds[((i + 2) % 4)::4], [(1,), (1, 1)], False))
     for (thr, variant, sub, shapes, merge) in combos:
       eigh, eps, rel, graft = variant[:4]
       o = {"lobpcg": variant[4] if len(variant) > 4 else 0, "mode": c["mode"], "S": c["S"], "P": c["P"], "Start": c["Start"], "thr": thr, "eigh": eigh,
